@@ -20,17 +20,17 @@ CFG_TIMEOUT = {'quick': 900, 'thorough': 3600}
 def configs(tier):
     q = tier == 'quick'
     out = []
-    shapes = [(1, 2), (2, 2), (2, 3), (3, 2), (3, 3)] + ([] if q else [(4, 3), (3, 4), (4, 4), (1, 3)])
+    shapes = [(1, 2), (2, 2), (2, 3), (3, 2), (3, 3)] + ([] if q else [(4, 3), (3, 4)])      # sized for about half an hour on 16 cores
     for meth in ('mdft', 'czt'):
         for (m, n) in shapes:
             for d in ('fwd', 'inv'):
                 if q and meth == 'czt' and (m, n) not in ((2, 2), (2, 3)):
                     continue
-                for (em, en) in ((m + 1, n), (m, n + 2), (m + 2, n + 1)) if q else ((m + 1, n), (m, n + 2), (m + 2, n + 1), (m + 3, n + 3)):
-                    sh = 'zero' if (meth == 'czt' and (q or em * en > 9)) else 'sym'   # symbolic shift through chirp-Z is the costly case
+                for (em, en) in ((m + 1, n), (m, n + 2), (m + 2, n + 1)):
+                    sh = 'zero' if (meth == 'czt' and (q or em * en > 6)) else 'sym'   # symbolic shift through chirp-Z is the costly case
                     out.append({'name': 'embed-%s-%s-%dx%d-in-%dx%d-%s' % (meth, d, m, n, em, en, sh), 'kind': 'embed', 'method': meth,
                                 'dir': d, 'in': [m, n], 'emb': [em, en], 'out': [3, 2], 'shift': sh})
-                sh = 'zero' if (meth == 'czt' and q) else 'sym'
+                sh = 'zero' if (meth == 'czt' and (q or m * n > 6)) else 'sym'
                 out.append({'name': 'transpose-%s-%s-%dx%d-%s' % (meth, d, m, n, sh), 'kind': 'transpose', 'method': meth, 'dir': d,
                             'in': [m, n], 'out': [2, 3], 'shift': sh})
     # the same field stored as a real or as a complex array (linearity over the complex numbers: T(a + i 0) == T(a))
